@@ -25,6 +25,7 @@
 // allocation accounting (C07 growth): outstanding operator-new allocations of this thread
 // ------------------------------------------------------------------------------------------------
 static thread_local long g_outstanding = 0;
+#ifndef HARNESS_NO_NEW_OVERRIDE // (ThreadSanitizer brings its own operator new)
 void* operator new(std::size_t n)
 {
   void* p = std::malloc(n ? n : 1);
@@ -49,6 +50,7 @@ void operator delete(void* p, std::size_t) noexcept
     std::free(p);
   }
 }
+#endif
 
 namespace
 {
